@@ -7,3 +7,8 @@ int lit_add_return(int *flag, long *w){ int a = *flag; (void) uatomic_add_return
 int lit_sub_return(int *flag, long *w){ int a = *flag; (void) uatomic_sub_return(w, 1L); int b = *flag; return a + 2*b; }
 /* store before the operation must be emitted before it */
 void lit_store_xchg(int *flag, long *w){ *flag = 1; (void) uatomic_xchg(w, 1L); *flag = 2; }
+
+/* memory-order API: a sequentially consistent store followed by a sequentially consistent load (store-buffering litmus): a full fence must separate them,
+   in the C11-builtin configuration and in the pre-C11 (x86.h emulation) configuration alike */
+void lit_store_seqcst(long *x, long *y, long *r){ uatomic_store(x, 1L, CMM_SEQ_CST); *r = uatomic_load(y, CMM_SEQ_CST); }
+void lit_set_seqcst(long *x, long *y, long *r){ uatomic_set(x, 1L, CMM_SEQ_CST); *r = uatomic_load(y, CMM_SEQ_CST); }
